@@ -73,6 +73,46 @@ def qmqp_stream(c):
     return ns(ns(c.body) + ns(c.sender) + b"".join(ns(r) for r in c.rcpts))
 
 
+class Multi:
+    """several messages on ONE connection (QMTP: message after message; SMTP: transaction after transaction): what one message
+    leaves behind in the daemon must not leak into the next.  Queue-program behaviour and DATABYTES are per connection."""
+    def __init__(self, proto, parts, note, databytes=None):
+        self.proto, self.parts, self.note, self.databytes = proto, parts, note, databytes
+        self.env, self.qexit, self.qtext, self.qdie, self.cut = None, 0, None, None, None
+        for i, p in enumerate(parts):
+            p.note = "%s#%d" % (note, i)
+
+
+def multi_stream(m):
+    if m.proto == "qmtp":
+        return b"".join(qmtp_stream(p) for p in m.parts)
+    s = b"HELO client.test\r\n"
+    for p in m.parts:
+        s += b"MAIL FROM:<" + p.sender + b">\r\n" + b"".join(b"RCPT TO:<" + r + b">\r\n" for r in p.rcpts) + b"DATA\r\n" + p.body.replace(b"\n", b"\r\n") + b".\r\n"
+    return s + b"QUIT\r\n"
+
+
+def multi_records(m, out, subs):
+    """one record per message of the connection: its acknowledgements and the queue-program invocation that belongs to it"""
+    recs = []
+    if m.proto == "qmtp":
+        acks = [(x[:1].decode("latin1") if x else "?") for x in parse_ns(out)]
+        pos = 0
+        for i, p in enumerate(m.parts):
+            mine = acks[pos:pos + len(p.rcpts)]
+            pos += len(p.rcpts)
+            recs.append(make_record(p, out, subs[i:i + 1], acks=mine))
+    else:
+        codes = [x for x, _ in sessions.smtp_replies(out)]
+        pos = 2          # greeting, HELO
+        for i, p in enumerate(m.parts):
+            g = codes[pos:pos + 3 + len(p.rcpts)]
+            pos += 3 + len(p.rcpts)
+            mine = [str(g[-1] // 100)] if len(g) == 3 + len(p.rcpts) and g[-2] == 354 else []
+            recs.append(make_record(p, out, subs[i:i + 1], acks=mine))
+    return recs
+
+
 def run_case(tree, qq, idx, c):
     env = dict(os.environ)
     env.update(ENV0)
@@ -83,7 +123,7 @@ def run_case(tree, qq, idx, c):
     env.update(qq.env("s%d" % idx, exitcode=c.qexit, err=c.qtext, die=c.qdie))
     if c.databytes is not None:
         env["DATABYTES"] = str(c.databytes)
-    stream = {"smtp": smtp_stream, "qmtp": qmtp_stream, "qmqp": qmqp_stream}[c.proto](c)
+    stream = multi_stream(c) if isinstance(c, Multi) else {"smtp": smtp_stream, "qmtp": qmtp_stream, "qmqp": qmqp_stream}[c.proto](c)
     if c.cut is not None:
         stream = stream[: c.cut]
     binary = {"smtp": "qmail-smtpd", "qmtp": "qmail-qmtpd", "qmqp": "qmail-qmqpd"}[c.proto]
@@ -91,9 +131,11 @@ def run_case(tree, qq, idx, c):
     return out, rc, to
 
 
-def make_record(c, out, subs):
-    acks = []
-    if c.proto == "smtp":
+def make_record(c, out, subs, acks=None):
+    if acks is not None:
+        pass
+    elif c.proto == "smtp":
+        acks = []
         codes = [x for x, _ in sessions.smtp_replies(out)]
         # greeting, HELO, MAIL, RCPT*n, DATA(354), final
         if 354 in codes:
@@ -102,6 +144,7 @@ def make_record(c, out, subs):
                 acks = [str(after[0] // 100)]
     else:
         acks = [(x[:1].decode("latin1") if x else "?") for x in parse_ns(out)]
+    acks = acks or []
     q = subs[0] if subs else None
     qinv = q is not None
     gs, gr, complete, recv, got = b"", [], False, b"", b""
@@ -181,6 +224,33 @@ def gen_cases(rng, thorough):
         for proto in ("smtp", "qmtp", "qmqp"):
             cs.append(Case(proto, body, s, [r1], env={"TCPREMOTEHOST": u or "unknown", "TCPREMOTEINFO": u, "TCPREMOTEIP": u or "1.2.3.4", "TCPLOCALHOST": u or "h"},
                            helo=(u.replace("\n", " ").replace("\r", " ") or "x"), note="peer:" + repr(u)[:12]))
+    # ---- several messages on one connection: every ordered pair of message kinds, seeded triples
+    def qmtp_part(kind):
+        big = b"Subject: big\n\n" + b"x" * 80 + b"\n"
+        return {"good": lambda: Case("qmtp", body, s, [r1]), "good2": lambda: Case("qmtp", b"Subject: two\n\nsecond\n", b"s2@sender.test", [r2, r1]),
+                "nul": lambda: Case("qmtp", body, s, [nul], rc=["bad"]), "long": lambda: Case("qmtp", body, s, [longa], rc=["bad"]),
+                "deny": lambda: Case("qmtp", body, s, [b"x@other.test"], rc=["deny"]), "norcpt": lambda: Case("qmtp", body, s, [], rc=[]),
+                "mixed": lambda: Case("qmtp", body, s, [longa, r1], rc=["bad", "ok"]), "over": lambda: Case("qmtp", big, s, [r1], over=1),
+                "sbad": lambda: Case("qmtp", body, nul, [r1], sbad=1)}[kind]()
+
+    def smtp_part(kind):
+        big = b"Subject: big\n\n" + b"x" * 80 + b"\n"
+        hop = b"".join(b"Received: by hop%d\n" % i for i in range(100)) + b"Subject: h\n\nb\n"
+        return {"good": lambda: Case("smtp", body, s, [r1]), "good2": lambda: Case("smtp", b"Subject: two\n\nsecond\n", b"s2@sender.test", [r2, r1]),
+                "over": lambda: Case("smtp", big, s, [r1], over=1), "hops": lambda: Case("smtp", hop, s, [r1], hops=1)}[kind]()
+    qk = ["good", "good2", "nul", "long", "deny", "norcpt", "mixed", "over", "sbad"]
+    sk = ["good", "good2", "over", "hops"]
+    for a_ in qk:
+        for b_ in qk:
+            cs.append(Multi("qmtp", [qmtp_part(a_), qmtp_part(b_)], "multi:%s,%s" % (a_, b_), databytes=60))
+    for a_ in sk:
+        for b_ in sk:
+            cs.append(Multi("smtp", [smtp_part(a_), smtp_part(b_)], "multi:%s,%s" % (a_, b_), databytes=60))
+    for _ in range(120 if thorough else 30):
+        ks = [rng.choice(qk) for _ in range(rng.choice([3, 4]))]
+        cs.append(Multi("qmtp", [qmtp_part(k) for k in ks], "multi:" + ",".join(ks), databytes=60))
+        ks = [rng.choice(sk) for _ in range(rng.choice([3, 4]))]
+        cs.append(Multi("smtp", [smtp_part(k) for k in ks], "multi:" + ",".join(ks), databytes=60))
     # ---- every cut point of a small transaction
     small = Case("smtp", b"Subject: c\n\nb\n", s, [r1])
     for proto in ("smtp", "qmtp", "qmqp"):
@@ -214,7 +284,7 @@ def main():
     if a.replay:
         note = json.load(open(a.replay))["case"]["note"]
         proto = json.load(open(a.replay))["case"]["proto"]
-        cases = [c for c in cases if c.note == note and c.proto == proto]
+        cases = [c for c in cases if (c.note == note or (isinstance(c, Multi) and note.startswith(c.note + "#"))) and c.proto == proto]
     jobs = list(enumerate(cases, 1))
     results = sessions.pmap(lambda j: run_case(tree, qq, j[0], j[1]), jobs, workers=NCPU)
     subs = qq.collect()
@@ -223,6 +293,11 @@ def main():
     for (idx, c), (out, rc, to) in zip(jobs, results):
         if to:
             hung += 1
+        if isinstance(c, Multi):
+            for r in multi_records(c, out, subs.get("s%d" % idx, [])):
+                recs.append(r)
+                ck.count((c.proto, r["note"], len(r["body"])), nontrivial=True)
+            continue
         recs.append(make_record(c, out, subs.get("s%d" % idx, [])))
         ck.count((c.proto, c.note, len(c.body)), nontrivial=True)
     if hung > 3:
@@ -249,7 +324,7 @@ def main():
             proto, r["note"], r["acks"], r["qinv"], r["qcomplete"], r["qexit"]), {"proto": proto, "note": r["note"]})
     ck.cov["rule"] = ("SMTP: every queue exit status 0..255, custom texts, death by signal / early exit, bodies of databytes-1/0/+1/+2 for three limits, 0/1/98/99/100/101/150 hop fields in "
                       "three case styles, hostile HELO/TCPREMOTE* strings, every cut point of a small session; QMTP/QMQP: exit statuses, sizes (LF and DOS format), per-recipient policy / "
-                      "over-long / NUL addresses, bad senders, every cut point; distinct by (protocol, case, body length)")
+                      "over-long / NUL addresses, bad senders, every cut point; several messages on one connection (QMTP: every ordered pair of 9 message kinds, SMTP: of 4, seeded triples and quadruples); distinct by (protocol, case, body length)")
     ck.assumptions += ["'queued' = the stand-in queue program saw the envelope terminator and exited 0 (a queue program killed after its commit point is outside the quantifier)",
                        "exit codes 100..255 and 115 are not queue-program codes: any negative reply is accepted for them"]
     ck.finish()
